@@ -15,7 +15,7 @@ RULE = ('deals from Hypothesis (sorted deck + drawn transpositions => voids/long
         'hands_parser(convert_deal()) each equal the original four hands; to_pbn text == independent canonical '
         'renderer (S.H.D.C, ranks high to low, void empty, unknown hand "-"); binary vectors are 52 slots of 0/1 with '
         'slot = card index; JSON lists ascend by card index; the random dealer returns 4 disjoint 13-card hands '
-        'covering the pack; every decoder is also called a second time after the first result was modified (cards added and removed, as the playing phases do): hands of one deal must not alias each other and the second decode must equal the original. Concurrent use: pairs of calls (two random dealers; two PBN round trips; the same partial deal text decoded twice with the result modified in between; tuple and numpy round trips) run as tasks of the schedule-owning kernel with a scheduling point at every source line of hands.py, on a freshly imported package per schedule; ALL schedules with <= 1 deviation from call-after-call execution are enumerated and each call must return what it returns alone (the dealer: a valid deal). evaluations = round trips + schedules. Non-trivial = deal with >=1 void or a partial deal, written '
+        'covering the pack; every decoded deal is re-encoded in all four formats (chained round trips); every decoder is also called a second time after the first result was modified (cards added and removed, as the playing phases do): hands of one deal must not alias each other and the second decode must equal the original. Concurrent use: pairs of calls (two random dealers; two PBN round trips; the same partial deal text decoded twice with the result modified in between; tuple and numpy round trips) run as tasks of the schedule-owning kernel with a scheduling point at every source line of hands.py, on a freshly imported package per schedule; ALL schedules with <= 1 deviation from call-after-call execution are enumerated and each call must return what it returns alone (the dealer: a valid deal). evaluations = round trips + schedules. Non-trivial = deal with >=1 void or a partial deal, written '
         'from a first seat other than N; distinct by (deal, first seat).')
 ASSUMPTIONS = ['vf/model/pbn.py renders the PBN 2.1 deal notation']
 
@@ -52,6 +52,23 @@ def _independent(decode, arg, hands, what, case):
           case, {'got': be.hands_to_ints(again)})
 
 
+def _chain(back, hands, first, what, case):
+    """A decoded deal is a deal like any other: re-encoding it in every format gives the encodings of the original."""
+    import numpy as np
+    from bridge_env.data_handler.json_handler.writer import convert_deal
+    case = dict(case, chained_from=what)
+    t = guard(f'to_pbn raises on a deal decoded from {what}', case, back.to_pbn, be.SEAT[first])
+    check(t == MP.deal_text(hands, first), f'deal decoded from {what} is re-encoded differently (PBN)', case, {'got': t})
+    b2 = guard(f'to_binary raises on a deal decoded from {what}', case, back.to_binary)
+    check(all([int(x) for x in b2[be.SEAT[s]]] == [1 if c in hands[s] else 0 for c in range(52)] for s in range(4)),
+          f'deal decoded from {what} is re-encoded differently (binary)', case)
+    n2 = guard(f'to_np_binary raises on a deal decoded from {what}', case, back.to_np_binary)
+    check(all([int(x) for x in n2[be.SEAT[s]]] == [1 if c in hands[s] else 0 for c in range(52)] for s in range(4)),
+          f'deal decoded from {what} is re-encoded differently (numpy)', case)
+    j2 = guard(f'convert_deal raises on a deal decoded from {what}', case, convert_deal, back)
+    check(all(j2[A.SEATS[s]] == PL.fmt_cards(hands[s]) for s in range(4)), f'deal decoded from {what} is re-encoded differently (JSON)', case)
+
+
 def _deal(owner, empty, dtype, stats=None):
     import numpy as np
     from bridge_env import Hands
@@ -71,6 +88,7 @@ def _deal(owner, empty, dtype, stats=None):
         back = guard('convert_pbn raises on to_pbn output', case, Hands.convert_pbn, text)
         check(_same(back, hands), 'PBN round trip changed the deal', case, {'text': text, 'got': be.hands_to_ints(back)})
         if first == len(hands[0]) % 4:
+            _chain(back, hands, (first + 1) % 4, 'PBN', case)
             guard('convert_pbn raises on to_pbn output', case, _independent, Hands.convert_pbn, text, hands, 'PBN', dict(case, text=text))
         if stats is not None:
             stats.evaluated()
@@ -85,6 +103,7 @@ def _deal(owner, empty, dtype, stats=None):
               'binary tuple is not the 52-slot indicator of the hand', case, {'seat': A.SEATS[s]})
     back = guard('convert_binary raises', case, Hands.convert_binary, b)
     check(_same(back, hands), 'binary tuple round trip changed the deal', case, {'got': be.hands_to_ints(back)})
+    _chain(back, hands, len(hands[1]) % 4, 'binary tuples', case)
     guard('convert_binary raises', case, _independent, Hands.convert_binary, b, hands, 'binary tuples', case)
     case = dict(base, dtype=dtype)
     nb = guard('to_np_binary raises', case, H.to_np_binary, getattr(np, dtype) if dtype != 'bool' else np.bool_)
@@ -94,6 +113,7 @@ def _deal(owner, empty, dtype, stats=None):
               'numpy vector is not the 52-slot indicator of the hand', case, {'seat': A.SEATS[s]})
     back = guard('convert_np_binary raises', case, Hands.convert_np_binary, nb)
     check(_same(back, hands), 'numpy round trip changed the deal', case, {'got': be.hands_to_ints(back)})
+    _chain(back, hands, len(hands[2]) % 4, 'numpy vectors', case)
     guard('convert_np_binary raises', case, _independent, Hands.convert_np_binary, nb, hands, 'numpy vectors', case)
     nb0 = guard('to_np_binary raises', base, H.to_np_binary)
     check(str(nb0[be.SEAT[0]].dtype) == 'int32', 'default numpy dtype is not int32', base)
@@ -104,6 +124,7 @@ def _deal(owner, empty, dtype, stats=None):
         check(got == PL.fmt_cards(hands[s]), 'JSON card list is not ascending by card index', case, {'seat': A.SEATS[s], 'got': got})
     back = guard('hands_parser raises', case, hands_parser, j)
     check(_same(back, hands), 'JSON round trip changed the deal', case)
+    _chain(back, hands, len(hands[3]) % 4, 'JSON card lists', case)
     guard('hands_parser raises', case, _independent, hands_parser, j, hands, 'JSON card lists', case)
     check(H == be.hands_from_owner(owner), 'Hands equality', case)
     check(_same(H, hands), 'an encoder modified the deal', case)
